@@ -614,3 +614,24 @@ Proof.
   destruct paris_total_example_hyps as (A & B & C).
   split; [exact A|]. split; [exact B|]. split; [exact C|reflexivity].
 Qed.
+
+
+(** ------------------------------------------------------------------------------------------------
+    10. Paris: the tie rule of the nearest-neighbour scan, re-extracted from paris.pyx on every run.
+    [paris_total] (section 9.6) is proved for the EXACT smallest-index tie rule ([elif sim == max_sim:
+    nearest_neighbor = min(neighbor, nearest_neighbor)]): a tolerance-based tie is not transitive and depends
+    on the scan order, and the chain can then cycle forever. The obligation below breaks if the source's tie
+    test is anything else; the termination statement carries the source fact as a visible premise. *)
+From SKN Require Import Proofs.ParisC17 Gen.ParisSrc.
+
+Theorem paris_source_tie_exact : paris_src_tie_exact = true.
+Proof. reflexivity. Qed.
+Print Assumptions paris_source_tie_exact.
+
+Theorem paris_terminates_for_source (n : nat) (G : entries) (wout win : list Q) :
+  paris_src_tie_exact = true ->
+  1 <= n -> graph_ok n G -> weights_ok n wout -> weights_ok n win ->
+  exists st, paris_run exact paris_src_clamp (paris_fuel n) (paris_init (ag_init exact n G wout win)) = Some (Ok st)
+             /\ p_comps st <> [].
+Proof. exact (ParisC17.paris_terminates_for_source n G wout win). Qed.
+Print Assumptions paris_terminates_for_source.
